@@ -105,6 +105,10 @@ impl Prop for C02 {
         vec![("multi-block-index-level", tier.pick(20, 500)), ("complete-alphabet", tier.pick(300, 8000))]
     }
 
+    fn fuzz_targets(&self) -> Vec<(&'static str, u64)> {
+        vec![("fuzz_cursor", 40_000)]
+    }
+
     fn run(&self, case: &Case, obs: &mut Obs) -> Check {
         let entries = case.spec.src.entries();
         let bytes = write_file(&case.spec.conf, &entries)?;
